@@ -1,6 +1,6 @@
 (* C09 -- property theorems only.  Proofs live in C09/Proofs*.v. *)
 From Coq Require Import NArith List.
-From DV Require Import Base.Outcome C09.Gen C09.Model C09.Proofs C09.ProofsZone C09.ProofsTrace C09.ProofsVersions.
+From DV Require Import Base.Outcome C09.Gen C09.Model C09.Proofs C09.ProofsZone C09.ProofsTrace C09.ProofsVersions C09.ProofsEffect.
 Import ListNotations.
 Local Open Scope N_scope.
 
@@ -97,7 +97,7 @@ Print Assumptions C09_walk_exact.
 Theorem C09_step_preserves_invariant : forall s e,
   zinv s -> z_cur s + 2 < LIM -> stale_ok e ->
   zinv (step s e) /\ z_cur s <= z_cur (step s e) /\
-  z_cur (step s e) <= z_cur s + (match e with ECommit => 1 | _ => 0 end) /\
+  z_cur (step s e) <= z_cur s + (match e with ECommit | ECommitBump => 1 | _ => 0 end) /\
   (forall r, r <= z_cur s -> view_eq (step s e) s r).
 Proof. exact step_inv. Qed.
 Print Assumptions C09_step_preserves_invariant.
@@ -122,6 +122,21 @@ Theorem C09_stale_handle_after_drop_refuted :
     query s 1 name t = ANoData (Some 1) /\ query (run s evs) 1 name t = AData 31.
 Proof. exact stale_handle_after_drop_refuted. Qed.
 Print Assumptions C09_stale_handle_after_drop_refuted.
+
+(* ---- what the writer's version contains (read by new readers after the commit):
+   cell_of s name t is the stored Versioned RRset of (name, type) ---- *)
+
+Theorem C09_update_effect : forall c w s name t rr r,
+  c < w -> z_q c w s -> rr <> 0 -> ver_le w r = true ->
+  v_get (cell_of (data_op s w (EUpdate name t rr)) name t) r = Some rr.
+Proof. exact update_effect. Qed.
+Print Assumptions C09_update_effect.
+
+Theorem C09_remove_effect : forall c w s name t r,
+  c < w -> z_q c w s -> w <= r -> r < LIM ->
+  v_get (cell_of (data_op s w (ERemove name t)) name t) r = None.
+Proof. exact remove_effect. Qed.
+Print Assumptions C09_remove_effect.
 
 (* ---- ZoneVersions / VersionMarker (clean_versions has no caller; tied by T1 only) ---- *)
 
